@@ -181,6 +181,41 @@ type seqRunner[V any] struct {
 	maxPool  int
 	sizeHist map[int]int
 	trace    []string // human-readable ops for samples / replay
+	sorters  map[int]age.SorterLike[V] // sorter instances kept for the whole history (key: ranker id, -1 = default)
+}
+
+// sortVia sorts collection object i through a sorter INSTANCE that lives as long as the history:
+// the instance for ranker rk is created on first use and reused later, and other sorters (the
+// default one and one with a different ranker) are created in between, so that a sorter made
+// earlier must have kept its own ranker.  The observable result is that of SortValuesWithRanker.
+func (s *seqRunner[V]) sortVia(so interface {
+	col.Sequential[V]
+	col.Updatable[V]
+}, rk int) {
+	if s.sorters == nil {
+		s.sorters = map[int]age.SorterLike[V]{}
+	}
+	base := age.Collator[V]().Make()
+	mk := func(id int) age.SorterLike[V] {
+		if id < 0 {
+			return age.Sorter[V]().Make()
+		}
+		return age.Sorter[V]().MakeWithRanker(func(a, b V) age.Rank { return rankWith(id, base, a, b) })
+	}
+	target, ok := s.sorters[rk]
+	if !ok {
+		target = mk(rk)
+		s.sorters[rk] = target
+	}
+	// decoys, made after the target and never used
+	_ = mk((rk + 2) % 5)
+	_ = mk(-1)
+	if so.GetSize() == 0 {
+		return
+	}
+	arr := so.AsArray()
+	target.SortValues(arr)
+	so.SetValues(1, col.Array[V](s.notation).MakeFromArray(arr))
 }
 
 func newSeqRunner[V any](r *rng, genv func(r *rng) V, isInt bool) *seqRunner[V] {
@@ -297,8 +332,13 @@ func (s *seqRunner[V]) digestSeq(o *pobj) string {
 		return fmt.Sprintf("OQue %d %s", a.GetCapacity(), encVals(arr))
 	case kIter:
 		it := o.v.(age.IteratorLike[V])
+		slot := it.GetSlot() // read before the walk: restoring the slot through ToSlot must not hide a bad one
+		hn, hp := it.HasNext(), it.HasPrevious()
 		snap := walkIter(it)
-		return fmt.Sprintf("OIter %s %s %d", encVal(any(s.zero)), encVals(snap), it.GetSlot())
+		if it.GetSlot() != slot || hn != (slot < len(snap)) || hp != (slot > 0) {
+			return fmt.Sprintf("OIter %s %s %d", encVal(any(s.zero)), encVals(snap), 1000000+slot) // inconsistent iterator
+		}
+		return fmt.Sprintf("OIter %s %s %d", encVal(any(s.zero)), encVals(snap), slot)
 	case kDead:
 		return "ODead"
 	}
@@ -755,6 +795,7 @@ func (s *seqRunner[V]) doSeqOp(d digester, name string) bool {
 		if i < 0 {
 			return false
 		}
+		viaSorter := r.chance(1, 3)
 		s.record(d, name, fmt.Sprintf("%s %d", name, i), fmt.Sprintf("#%d.%s()", i, name), func() string {
 			var so col.Sortable[V]
 			if s.pool[i].kind == kArr {
@@ -763,7 +804,15 @@ func (s *seqRunner[V]) doSeqOp(d digester, name string) bool {
 				so = s.pool[i].v.(col.ListLike[V])
 			}
 			if name == "SortValues" {
-				so.SortValues()
+				if viaSorter {
+					if s.pool[i].kind == kArr {
+						s.sortVia(s.pool[i].v.(col.ArrayLike[V]), -1)
+					} else {
+						s.sortVia(s.pool[i].v.(col.ListLike[V]), -1)
+					}
+				} else {
+					so.SortValues()
+				}
 			} else {
 				so.ReverseValues()
 			}
@@ -778,12 +827,21 @@ func (s *seqRunner[V]) doSeqOp(d digester, name string) bool {
 		if s.isInt && r.chance(1, 4) {
 			rk = 6
 		}
+		viaSorter := r.chance(1, 3)
 		s.record(d, name, fmt.Sprintf("SortWith %d %d", i, rk), fmt.Sprintf("#%d.SortValuesWithRanker(#%d)", i, rk), func() string {
 			var so col.Sortable[V]
 			if s.pool[i].kind == kArr {
 				so = s.pool[i].v.(col.ArrayLike[V])
 			} else {
 				so = s.pool[i].v.(col.ListLike[V])
+			}
+			if viaSorter && rk != 6 {
+				if s.pool[i].kind == kArr {
+					s.sortVia(s.pool[i].v.(col.ArrayLike[V]), rk)
+				} else {
+					s.sortVia(s.pool[i].v.(col.ListLike[V]), rk)
+				}
+				return "RUnit"
 			}
 			base := age.Collator[V]().Make()
 			so.SortValuesWithRanker(func(a, b V) age.Rank { return rankWith(rk, base, a, b) })
@@ -907,6 +965,15 @@ func (s *seqRunner[V]) doSeqOp(d digester, name string) bool {
 		if i < 0 {
 			return false
 		}
+		if r.chance(1, 4) {
+			// prefer an empty collection when there is one (iterators over nothing are a boundary of their own)
+			for _, j := range s.ofKind(seqKinds...) {
+				if s.seqOf(j).GetSize() == 0 {
+					i = j
+					break
+				}
+			}
+		}
 		s.record(d, name, fmt.Sprintf("GetIterator %d []", i), fmt.Sprintf("#%d.GetIterator()", i), func() string {
 			s.add(kIter, s.seqOf(i).GetIterator(), 0)
 			return "RNew"
@@ -969,7 +1036,12 @@ func (s *seqRunner[V]) iterMove(d digester, i int, size func() int, f func(m str
 	enc := fmt.Sprintf("%s %d", m, i)
 	if m == "IToSlot" {
 		n := size()
-		k = s.r.intn(2*n+5) - n - 2
+		if s.r.chance(1, 2) {
+			// boundary slots: both ends of the clamp, both signs, also on an empty sequence
+			k = []int{-n - 2, -n - 1, -n, -1, 0, 1, n, n + 1, n + 2, -1, -2}[s.r.intn(11)]
+		} else {
+			k = s.r.intn(2*n+5) - n - 2
+		}
 		enc = fmt.Sprintf("IToSlot %d %s", i, zlit(int64(k)))
 	}
 	s.record(d, m, enc, fmt.Sprintf("#%d.%s(%d)", i, m, k), func() string { return f(m, k) })
@@ -1130,8 +1202,13 @@ func (a *assocRunner[V]) digest(o *pobj) string {
 		return "OMap " + a.kvs(tmp)
 	case kIterA:
 		it := o.v.(age.IteratorLike[col.AssociationLike[V, V]])
+		slot := it.GetSlot()
+		hn, hp := it.HasNext(), it.HasPrevious()
 		snap := walkIter(it)
-		return fmt.Sprintf("OIter VNil %s %d", encAssocVals(snap), it.GetSlot())
+		if it.GetSlot() != slot || hn != (slot < len(snap)) || hp != (slot > 0) {
+			return fmt.Sprintf("OIter VNil %s %d", encAssocVals(snap), 1000000+slot)
+		}
+		return fmt.Sprintf("OIter VNil %s %d", encAssocVals(snap), slot)
 	}
 	return a.digestSeq(o)
 }
@@ -1147,6 +1224,8 @@ func (a *assocRunner[V]) genKey(i int) V {
 			ks = a.pool[i].v.(col.MapLike[V, V]).GetKeys().AsArray()
 		}
 		if len(ks) > 0 {
+			// Go map order is random: order the candidates so that the draw is a function of the PRNG only
+			sort.Slice(ks, func(x, y int) bool { return encVal(any(ks[x])) < encVal(any(ks[y])) })
 			return ks[a.r.intn(len(ks))]
 		}
 	}
